@@ -9,6 +9,7 @@ Line protocol for C13:  `c13 <op> <type> <fmt> <message tokens…>`
 * `stamp <opm|oem|tdm> <TIME_SYSTEM> <scale> <clock µs> <off scale> <off TIME_SYSTEM>` → `<clock written> <label read back>`
 * `window <date µs> <duration µs> <start|median|stop>` → `<start> <stop>` of the maneuver read back | `none`
 * `form <kvn|xml> <form>` → `ok` | `err dump AttributeError`      (OEM writers and the form of the points)
+* `udkey <name>` → the user-defined name the KVN readers recover from the key the writers print | `none`
 * `kepl <0|1>` → what the OPM writers do with a Keplerian impulsive (0) / continuous (1) maneuver: `err dump AttributeError` | `zeros` | `dv`
 
 Free strings travel as opaque tokens (the harness hex-encodes them); numbers as the text the writer
@@ -218,6 +219,9 @@ def ext : List String → Option String
       | some (a, b) => toString a ++ " " ++ toString b
       | none => "none")
   | ["form", fmt, form] => some (if oemDumpForm fmt form then "ok" else "err dump AttributeError")
+  | ["udkey", name] => some (match udKeyIn (udKeyOut name.toList) with
+      | some k => String.ofList k
+      | none => "none")
   | ["kepl", k] => some (match kepManWritten (k = "1") with
       | .attrError => "err dump AttributeError" | .zeros => "zeros" | .dv => "dv")
   | _ => none
